@@ -58,6 +58,9 @@ func runC20(p *eng.Prog, r *eng.Report, tier string) {
 	c20ValuesOfTheFieldItself(c, "C20.12", f)
 	c20EveryFieldReported(c, "C20.13")
 	xmlLangTagsNamespaced(c, "C20.14")
+	noLossyInDecoders(c, "C20.15", func(f *eng.Fn) bool {
+		return strings.HasPrefix(f.Short, "form.") || strings.HasPrefix(f.Short, "disco/info.")
+	}, 5)
 	hname := "p1"
 	// ---- C20.4b the encoder's output buffer never overlaps the digest ----------
 	nenc := 0
